@@ -149,6 +149,7 @@ def _register():
     engines=[EngineSpec("sync", gen_sync, mon_sync, tags_sync, quick_n=150, thorough_n=5000),
              EngineSpec("order", gen_order, mon_order, tags_order, quick_n=300, thorough_n=10000),
              EngineSpec("pool", gen_pool_c20, mon_pool_c20, tags_pool_c20, quick_n=150, thorough_n=5000)],
+    facts=["readyHandler"],
     rule="sync engine: every (begin,end,fetch) triple below a small bound exhaustively plus random large triples. order engine: the real "
          "etcdraft.Node apply loop (entriesToApply/publishEntries/reportState/maybeTriggerSnapshot on real RaftStorage) fed with committed logs "
          "containing valid, stale-leader, future and empty entries in arbitrary chunks, interleaved with execution, in-order/out-of-order/missing "
@@ -165,7 +166,10 @@ import re as _re
 
 def gen_order(rng, n, tier):
     import random as _r
-    hs = []
+    # forced, not drawn (seeding round 25): the real Node — NewNode + Start, the goroutine of listenRaftMsg, a real raft instance —
+    # as follower of a scripted leader that replicates one batch and commits it; the replica's log storage is slowed down (delay in
+    # ms) and the peer manager records whether the acknowledgement of the batch's index left while the storage already held it
+    hs = [History([f"livefollower delay={d}"], tags={"live-follower"}) for d in ((150, 250) if tier == "quick" else (100, 150, 250, 400))]
     for _ in range(n):
         r = _r.Random(rng.getrandbits(64))
         le = r.choice([0, 0, 3])
@@ -260,6 +264,20 @@ def mon_order(h, obs):
     tv = None          # (term, vote) last handed to the storage by a hard-state-only Ready
     for op, o in zip(h.ops, obs):
         ws = op.split()
+        if ws[0] == "livefollower":
+            # "identical content on every replica ... across crash/restart of any replica at any point": a replica that tells the
+            # leader it holds log index k before its storage does forgets an entry the leader may already have committed
+            m = _re.search(r"acked=(\d+) early=(\d) delivered=(\d+)", o or "")
+            if not m:
+                hits.append(Hit("C20/live-follower-run-failed", f"the scripted follower run did not complete: {o}", detail=op))
+            else:
+                if m.group(2) == "1":
+                    hits.append(Hit("C20/acknowledged-before-durable",
+                                    "the replica acknowledged the batch's log index to the leader while its log storage did not hold that index yet: "
+                                    "a crash right then loses an entry the leader counts as replicated (another batch can be committed at that height)", detail=op))
+                if m.group(1) != "1" or m.group(3) != "2":
+                    hits.append(Hit("C20/live-follower-did-not-deliver", f"the follower did not acknowledge / deliver the committed batch: {o}", detail=op))
+            continue
         if ws[0] == "hs" and o == "ok":
             tv = (int(ws[1]), int(ws[2]))
         elif ws[0] == "restart" and tv is not None:
